@@ -513,6 +513,20 @@ def modelledRows : List (String × RowClass) :=
     ("routers/legacy.(*Router).node", .lazyCtor),  -- part of routerCell: NewRouter creates the node
     ("openapi3gen.(*Generator).NewSchemaRefForValue", .outParam) ]  -- caller-owned output map
 
+/-- a struct type whose writes the translator sets aside as per-call state (`schemaValidationSettings`: multi-error
+    flag, `trial` depth of oneOf/anyOf candidates, the defaults-set once; `SchemaError`, …) -/
+structure PerCallRow where
+  name : String
+  declared : Bool          -- the type exists in package openapi3
+  inDocument : Bool        -- reachable through the fields of a document struct: then it would be SHARED
+  writes : Nat             -- writes to its fields in functions reachable from the concurrent entry points
+  allocReachable : Bool    -- allocated (composite literal / new) in a reachable function: created inside the call
+  allocSites : List String
+  deriving DecidableEq, Repr
+
+def perCallOK (r : PerCallRow) : Bool :=
+  r.declared && !r.inDocument && (r.writes == 0 || r.allocReachable)
+
 def rowFn : SharedWrite → String
   | .write _ _ fn _ _ _ _ _ => fn
   | .unrecognised _ => ""
